@@ -371,6 +371,23 @@ func genParseCase(t *rapid.T) C13Case {
 		c.Line = rapid.SliceOfN(rapid.Byte(), 0, 120).Draw(t, "line")
 		return c
 	}
+	if rapid.IntRange(0, 2).Draw(t, "valid") == 0 {
+		// a line the rule generator of C06/C07 makes (every filter class, keys given by -k and by -F key= side by
+		// side, comparisons, watches ...): whatever such a line leads to, it is a rule or an error — and one
+		// more token from the alphabet somewhere in it
+		sp := rulegen.GenSpec(t, genOpts())
+		args := sp.Args()
+		if rapid.Bool().Draw(t, "extra") {
+			i := rapid.IntRange(0, len(args)).Draw(t, "at")
+			args = append(args[:i:i], append([]string{rapid.SampledFrom(flagAlphabet).Draw(t, "tok")}, args[i:]...)...)
+		}
+		q := make([]string, len(args))
+		for i, a := range args {
+			q[i] = rulegen.ShQuote(a)
+		}
+		c.Line = []byte(strings.Join(q, " "))
+		return c
+	}
 	toks := rapid.SliceOfN(rapid.SampledFrom(flagAlphabet), 0, 14).Draw(t, "toks")
 	c.Line = []byte(strings.Join(toks, rapid.SampledFrom([]string{" ", " ", "  ", ""}).Draw(t, "glue")))
 	return c
